@@ -114,6 +114,20 @@ def run(tier, wd):
                 if (r0.get("postusage") or "").rstrip() != want:
                     v = "violation:after Run returned, PrintHelp of the spec-less command shows %r, expected %r" % (r0.get("postusage"), want)
         out.append((grp, pr, rs, v, classes))
+    # a spec-less command that has sub commands too (with and without an Action of its own) and its explicit twin: CmdTree.tla says
+    # what happens for `[OPTIONS] X` at that level, both must do exactly that
+    from vlib import tree as T
+    from props import treecommon as tc
+    its = T.implicit_trees()
+    trs_t, rows_t = tc.run_tree(rep, wd, binpath, ["x"], 1, ["continue"], "c16-tree", trees=its)
+    for c, r in rows_t:
+        if r.get("skipped") or c["kind"] == "noaction":
+            continue
+        js = [j for j in T.judge(c, r) if j[0] in ("routing", "bindings", "policy")]
+        if js and not c.get("greedy"):
+            rep.violation("%s spec: " % ("missing" if its[c["ti"]]["nodes"][0]["spec"] == "" else "explicit") + tc.describe(trs_t, c) + ": " + "; ".join(t for _, t in js),
+                          tc.replay_obj(trs_t, c))
+    rep.cov["command_tree_vectors"] = len(rows_t)
     gc.finish_groups(rep, progs, specs, out,
                      "a group = one program (0-3 options out of -a/--aa, -b, -o/--out; 0-3 arguments out of X, Y, X1_ in every order; options declared first, "
                      "arguments declared first, or interleaved) x one command line (random sentence of `[OPTIONS] ARG...`, shuffled, perturbed, with a marker) x optionally "
@@ -130,6 +144,9 @@ def replay(path, wd):
     import json
     with open(path) as f:
         o = json.load(f)["replay"]
+    if o.get("engine") == "tree":
+        from props import treecommon as tc
+        return tc.replay(path, wd, ("routing", "bindings", "policy"))
     if o.get("engine") == "structeq":
         rep = core.Report(PROP, "quick", "model_checking")
         v = structeq.check(rep, wd, core.build_harness(), [o["prog"]], [{"ast": o["ast"], "str": o["spec"], "prog": 0}])[0]
